@@ -13,6 +13,16 @@ using namespace vh;
 
 namespace {
 
+    std::vector<std::string> const c09_focus = {"barrier", "latch", "event", "call_once", "once_flag", "condition_variable::wait", "condition_variable::notify_one", "execution_agent::do_yield", "set_thread_state"};
+    struct FocusInit
+    {
+        FocusInit()
+        {
+            for (auto& s : c09_focus) focus_patterns().push_back(s);
+        }
+    } focus_init;
+
+
     void yield_here(int kind, int times)
     {
         for (int i = 0; i < times; i++)
@@ -81,6 +91,7 @@ namespace {
         }
         sim_config sc = draw_sim_config(ctx, 50000, FAULT_STALL | FAULT_TRYFAIL);
         begin_sim(ctx, sc);
+        focus_select(ctx, c09_focus, 3);
         g_dump_hook = +[]() -> std::string {
             return pk::dump() +
                 sfmt(" | latch model: count=%lld arrived=%lld unclaimed=%lld blocked=%d",
@@ -261,6 +272,7 @@ namespace {
         }
         sim_config sc = draw_sim_config(ctx, 80000, FAULT_STALL | FAULT_CLOCKJUMP);
         begin_sim(ctx, sc);
+        focus_select(ctx, c09_focus, 3);
         g_dump_hook = +[]() -> std::string {
             std::string s = pk::dump() + sfmt(" | barrier model: completions=%d arrived:", BS.completions);
             for (int k = 0; k < BS.phases; k++) s += sfmt(" %d/%d", BS.arrived[(size_t) k], BS.expected[(size_t) k]);
@@ -344,6 +356,7 @@ namespace {
         }
         sim_config sc = draw_sim_config(ctx, 40000, FAULT_STALL);
         begin_sim(ctx, sc);
+        focus_select(ctx, c09_focus, 3);
         g_dump_hook = pk::dump;
         pk::start(ctx);
         static pika::experimental::event e;
@@ -422,6 +435,7 @@ namespace {
         }
         sim_config sc = draw_sim_config(ctx, 40000, FAULT_STALL);
         begin_sim(ctx, sc);
+        focus_select(ctx, c09_focus, 3);
         g_dump_hook = pk::dump;
         pk::start(ctx);
         static pika::once_flag flag;
